@@ -75,4 +75,15 @@ def KState.inv (s : KState) : Bool :=
   -- WatchList shows only paths that are watched (under their own name, or as the link name of an entry)
   s.byUser.all (fun p => alHas p s.path || s.wd.any (fun e => e.2.linkName == p))
 
+/-- the same invariant, clause by clause, with the name of the first clause that fails (what the driver
+prints for a snapshot). `links`: the listed user paths that are symbolic links on disk — an orphan
+among those is finding F10's family (bookkeeping keyed by link name vs. resolved name). -/
+def KState.invReport (s : KState) (links : List Path) : String :=
+  if !(s.openFds.all (fun fd => alHas fd s.wd)) then "INV-VIOLATED descriptor-without-entry"
+  else if !(s.wd.all (fun e => s.openFds.contains e.1)) then "INV-VIOLATED entry-without-descriptor"
+  else if !(s.wd.all (fun e => e.2.wd == e.1 && alLookup e.2.name s.path == some e.1)) then "INV-VIOLATED entry-mislisted"
+  else match s.byUser.find? (fun p => !(alHas p s.path || s.wd.any (fun e => e.2.linkName == p))) with
+    | none => "ok"
+    | some p => if links.contains p then "INV-VIOLATED watchlist-orphan-symlink" else "INV-VIOLATED watchlist-orphan"
+
 end Kq
